@@ -397,6 +397,12 @@ func propC10(r *kernel.Run) {
 			if cur.nodeID != "" {
 				nni.NodeId = cur.nodeID
 			}
+			if tp.Draw(2) == 0 {
+				// the application keeps its own data in State and updates it on the new record (e.g. a version counter),
+				// so records of one node differ in state
+				nni.State, _ = structpb.NewStruct(map[string]any{"generation": float64(len(chain)), "owner": cur.id.Name})
+				r.Count("ops.app_updates_state", 1)
+			}
 			if w.Backend == "storeonce" {
 				w.Inner.Remove(w.Ctx, &types.NodeInformation{Id: nni.Id})
 			}
